@@ -100,7 +100,7 @@ def run_property(prop, title, obligations, prog, tier, explanation, assumptions,
         t1 = time.time()
         try:
             ob.fn(ctx)
-            if ob.instances < ob.floor:
+            if ob.instances < ob.floor and not ob.findings:
                 raise AnchorMissing(f"rule matched {ob.instances} construct(s), fewer than the {ob.floor} confirmed by "
                                     f"reading: the rule would pass vacuously")
             ob.status = "VIOLATED" if ob.findings else "HOLDS"
